@@ -212,3 +212,113 @@ Proof.
   - cbn [ss_wal ss_env]. unfold set_stable. rewrite Hcl. eexists _, _. split; [reflexivity|]. auto.
   - cbn [ss_wal ss_env]. unfold get_stable. rewrite Hcl. eexists _, _. split; [reflexivity|]. auto.
 Qed.
+
+(* ------------------------------------------------------------------ *)
+(* modes give read views                                                *)
+Lemma observed_RV c nb w e nom : RV c nb w (e_disk e) nom -> observed {| ss_wal := w; ss_env := e |} = nom.
+Proof.
+  intros HRV. destruct (RV_view _ _ _ _ _ HRV) as (wc & dc & S & t & f0 & tw & RVw & Hsp & Hst).
+  unfold observed. cbn [ss_wal ss_env]. rewrite (rv_abs _ _ _ _ _ _ _ _ _ _ RVw), <- Hst. exact Hsp.
+Qed.
+
+Lemma stale_ok_nopend d : no_pend d -> stale_ok None d.
+Proof. intros H n f Hl Hp. exfalso. apply Hp. apply (H n f Hl). Qed.
+
+Lemma sh_keys d : map fst (dk_files (sh d)) = map fst (dk_files d).
+Proof. apply map_files_keys. Qed.
+
+Lemma LInv_NoDup_sh c nb w d : LInv c nb w (sh d) -> NoDup (map fst (dk_files d)).
+Proof. intros (_ & _ & HD & _). rewrite <- sh_keys. apply (DIs_NoDup _ _ _ HD). Qed.
+
+Lemma RV_of_live c nb w d defer : Live c nb w d defer -> RV c nb w d (sp_of (sh d)).
+Proof.
+  intros (HL & Hst). pose proof (LInv_NoDup_sh _ _ _ _ HL) as ND.
+  destruct Hst as [Hn|(t & f & p & Ht & Hf & Hp & Hso & _)].
+  - exists w, (sh d), None. split; [exact HL|]. do 5 (split; [reflexivity|]). split; [exact ND|].
+    split; [apply stale_ok_nopend; exact Hn|intros n K; discriminate].
+  - exists w, (sh d), (Some (name_of t)). split; [exact HL|]. do 5 (split; [reflexivity|]). split; [exact ND|].
+    split; [exact Hso|]. intros n K. inversion K; subst. exists t. auto.
+Qed.
+
+Lemma RV_of_seal c nb w d : Seal c nb w d -> RV c nb w d (sp_of (sh d)).
+Proof.
+  intros (tw & Ht & His & Hr & HL & Hn). pose proof (LInv_NoDup_sh _ _ _ _ HL) as ND.
+  exists (set_rot w (Some (ws_index_start tw))), (sh d), None. split; [exact HL|]. do 5 (split; [reflexivity|]). split; [exact ND|].
+  split; [apply stale_ok_nopend; exact Hn|intros n K; discriminate].
+Qed.
+
+Lemma Mode_RV c nb w d nom defer : Mode c nb w d nom defer -> st_closed w = false -> RV c nb w d nom.
+Proof.
+  intros [(A & _)|(_ & [(A & <-)|[(A & <-)|(_ & _ & A)]])] Hcl; [congruence| | |exact A].
+  - eapply RV_of_live; eauto.
+  - apply RV_of_seal; exact A.
+Qed.
+
+(* ------------------------------------------------------------------ *)
+(* symmetry of the strict relation                                      *)
+Lemma drel_sym d dc : drel None d dc -> drel None dc d.
+Proof.
+  intros H. pose proof (drel_strict_in d dc H) as HF. pose proof (drel_NoDup _ _ _ H) as ND.
+  destruct H as (H1 & H2 & H3 & H4 & H5 & H6).
+  split.
+  { clear - HF. induction HF as [|a b l lc (E & (A & B & C & D & _) & P) _ IH]; constructor; [|exact IH].
+    split; [auto|]. unfold frel. repeat split; auto. }
+  repeat split; auto. intros n f g A B _. symmetry. apply (H6 n g f B A). discriminate.
+Qed.
+
+Lemma drel_nopend d dc : drel None d dc -> no_pend dc -> no_pend d.
+Proof.
+  intros (H1 & _ & _ & _ & _ & H6) Hn n f Hl. destruct (lrel_lookup_some n _ _ f H1 Hl) as (g & Hg & _).
+  rewrite (H6 n f g Hl Hg ltac:(discriminate)). apply (Hn n g Hg).
+Qed.
+
+(* ------------------------------------------------------------------ *)
+(* restart / reopen                                                     *)
+Lemma adopt_keys d : map fst (dk_files (adopt_disk d)) = map fst (dk_files d).
+Proof. rewrite adopt_is_map. apply map_files_keys. Qed.
+Lemma ad_keys d : map fst (dk_files (ad d)) = map fst (dk_files d).
+Proof. unfold ad, dirfix. rewrite map_files_keys. apply adopt_keys. Qed.
+
+Lemma live_clean c nb w d defer : LInv c nb w (sh d) -> no_pend d -> Live c nb w d defer.
+Proof. intros H Hn. split; [exact H|left; exact Hn]. Qed.
+
+Lemma RD_of_clean c nb w d alts defer : LInv c nb w (sh d) -> no_pend d -> In (sp_of (sh d)) alts -> RD c nb d alts defer.
+Proof.
+  intros HL Hn Hin. pose proof (LInv_NoDup_sh _ _ _ _ HL) as ND. unfold RD. rewrite (ad_nopend d ND Hn).
+  split; [apply HL|apply cand_alts; exact Hin].
+Qed.
+
+Lemma reopen_ok c nb d alts defer acts f m :
+  cfg_ok c -> nb + 1 < two64 -> RD c nb d alts defer ->
+  let e := {| e_acts := acts; e_disk := adopt_disk d; e_fault := f; e_m := m |} in
+  exists res e', open_wal c e = (res, e') /\
+    ((exists w', res = OOk w' /\ LInv c (nb + 1) w' (sh (e_disk e')) /\ no_pend (e_disk e') /\
+                 sp_of (sh (e_disk e')) = sp_of (ad d)) \/
+     (f <> None /\ (exists x, res = OErr x) /\ e_fault e' = None /\ RD c (nb + 1) (e_disk e') alts defer)).
+Proof.
+  intros Hc Hnb (HD & Hcand) e.
+  set (ec := {| e_acts := acts; e_disk := ad d; e_fault := None; e_m := m |}).
+  assert (ND : NoDup (map fst (dk_files (adopt_disk d)))) by (rewrite adopt_keys, <- ad_keys; apply (DIs_NoDup _ _ _ HD)).
+  assert (Hrel : drel None (adopt_disk d) (ad d)) by (apply drel_dirfix; exact ND).
+  destruct (open_wal_ok c nb ec Hc eq_refl HD (no_pend_ad d) Hnb) as (wc & ec' & Hoc & Hext & HLc & _).
+  destruct (open_wal c e) as [res e'] eqn:Ho. exists res, e'. split; [reflexivity|].
+  assert (Hsame : forall (dr : disk), drel None dr (e_disk ec') ->
+            LInv c (nb + 1) wc (sh dr) /\ no_pend dr /\ sp_of (sh dr) = sp_of (ad d)).
+  { intros dr Hdr. pose proof HLc as (_ & _ & HDc & HNc & _).
+    rewrite (drel_sh_eq _ _ _ Hdr). split; [apply LInv_sh; exact HLc|]. split; [eapply drel_nopend; eauto|].
+    rewrite <- (dirfix_nopend _ (DIs_NoDup _ _ _ HDc) HNc), sp_of_dirfix.
+    destruct (ext_final _ _ _ Hext) as (_ & _ & Hs). exact Hs. }
+  destruct f as [k|].
+  - destruct (open_wal_lock c e ec res e' (OOk wc) ec' (conj Hrel eq_refl) Ho Hoc) as [(-> & HR')|(F1 & F2 & dm & F3 & F4)].
+    + left. exists wc. split; [reflexivity|]. apply Hsame. apply HR'.
+    + right. split; [discriminate|]. split; [exact F2|]. split; [exact F1|].
+      destruct (ext_pfx _ _ _ _ Hext F4) as (HDm & HNm & Hsm).
+      assert (Hn' : no_pend (e_disk e')) by (eapply drel_nopend; eauto).
+      pose proof (drel_NoDup _ _ _ F3) as ND'.
+      unfold RD. rewrite (ad_nopend _ ND' Hn'), (drel_sh_eq _ _ _ F3).
+      rewrite <- (dirfix_nopend _ (DIs_NoDup _ _ _ HDm) HNm). split; [apply DIs_dirfix; exact HDm|].
+      rewrite sp_of_dirfix, Hsm. exact Hcand.
+  - (* no fault armed: run the simulation the other way round *)
+    destruct (open_wal_lock c ec e (OOk wc) ec' res e' (conj (drel_sym _ _ Hrel) eq_refl) Hoc Ho) as [(<- & HR')|(_ & (x & F2) & _)]; [|discriminate].
+    left. exists wc. split; [reflexivity|]. apply Hsame. apply drel_sym. apply HR'.
+Qed.
